@@ -180,3 +180,8 @@ package cron
 //@   pure-effects
 //@ func (*Cron).resetTimer
 //@   ensures[C15+C16.reset_always_rearms_when_pending] len(c.Timeline) > 0 ==> timerArms == old(timerArms) + 1
+
+// C19/C15: a scheduled rule fires under the context of whoever installed it (with that caller's keys: "with the right keys
+// behaviour is identical to an unprotected location"), not under a context made up for the job.
+//@ func (*InternalCron).ScheduleEvent$1
+//@   assert[C19+C15.scheduled_job_runs_under_the_installers_context] at "call:ProcessEvent": callarg(ctx) == ctx
